@@ -5,6 +5,7 @@ import (
 	"fmt"
 	"math/rand"
 	"net/url"
+	"regexp"
 	"strconv"
 	"strings"
 	"time"
@@ -84,13 +85,24 @@ func (sc *scen) tick() bool {
 	sc.n.Pool.Validate(ts)
 	if len(sc.n.AllBlocks()) != before+1 {
 		sc.fail(sc.prop(), "prop", "harness/validator-produced-no-block",
-			"the validator did not produce a block on a regular tick: "+strings.Join(sc.n.Log.Drain(), " | "),
+			"the validator did not produce a block on a regular tick: "+strings.Join(sc.validatorLog(), " | "),
 			map[string]any{"tick": ts})
 		sc.aborted = true
 		return false
 	}
 	sc.n.Log.Drain()
 	return true
+}
+
+var pointerRe = regexp.MustCompile(`0x[0-9a-f]+`)
+
+// validatorLog drains the validator's log; pointer values printed by the code under test are masked.
+func (sc *scen) validatorLog() []string {
+	lines := sc.n.Log.Drain()
+	for i, l := range lines {
+		lines[i] = pointerRe.ReplaceAllString(l, "0x_")
+	}
+	return lines
 }
 
 func poolIds(n *node.Node) []string {
@@ -281,7 +293,7 @@ func (sc *scen) fund(round, rounds int) {
 	sc.n.Pool.AddTransaction(tx, "", "")
 	if !contains(poolIds(sc.n), tx.Id()) {
 		sc.fail(sc.prop(), "prop", "harness/funding-rejected",
-			"funding transaction refused: "+strings.Join(sc.n.Log.Drain(), " | "), nil)
+			"funding transaction refused: "+strings.Join(sc.validatorLog(), " | "), nil)
 		sc.aborted = true
 		return
 	}
@@ -732,7 +744,7 @@ func (sc *scen) post(o *node.Wallet, q infoQuery, amount uint64, ans infoAnswer,
 		return nil
 	}
 	if !contains(poolIds(sc.n), tx.Id) {
-		ctx["validator_log"] = sc.n.Log.Drain()
+		ctx["validator_log"] = sc.validatorLog()
 		if already := sc.spentByLastBlock(ans.Inputs); len(already) > 0 {
 			// the one known reason: the validator's listing lags its last block (C07), see known_findings.json
 			ctx["offered_although_spent_by_last_block"] = already
